@@ -8,7 +8,7 @@ import Zc.Gen.Responder
 * `ServiceRegistry` is three insertion-ordered dicts with `str` keys: `_services` (key ↦ info; the key is
   `info.key = name.lower()`, so it is derived, not stored), `types` (`type.lower()` ↦ list of keys) and
   `servers` (`server_key` ↦ list of keys).
-* `Index.remove` mirrors the **repaired** `_remove` (D3): a bucket that becomes empty is deleted.
+* `NameIndex.remove` mirrors the **repaired** `_remove` (D3): a bucket that becomes empty is deleted.
 
 `str.lower` is the parameter `lower` (DESIGN §4.3).  Registered infos always have a server
 (`_add` asserts it, `async_register_service` calls `set_server_if_missing`), so `server` is a `String`. -/
@@ -34,13 +34,13 @@ def ddel (k : String) (l : List (String × β)) : List (String × β) := l.filte
 end Dict
 
 /-- `types` / `servers`: key ↦ list of service keys -/
-abbrev Index := List (String × List String)
+abbrev NameIndex := List (String × List String)
 
 /-- `index.setdefault(k, []).append(x)` -/
-def Index.add (idx : Index) (k x : String) : Index := dset k ((dget k idx).getD [] ++ [x]) idx
+def NameIndex.add (idx : NameIndex) (k x : String) : NameIndex := dset k ((dget k idx).getD [] ++ [x]) idx
 
 /-- `_remove_from_index` (repaired, D3): `names = index[k]; names.remove(x); if not names: del index[k]` -/
-def Index.remove (idx : Index) (k x : String) : Except PyExc Index :=
+def NameIndex.remove (idx : NameIndex) (k x : String) : Except PyExc NameIndex :=
   match dget k idx with
   | none => .error .keyError
   | some names =>
@@ -50,7 +50,7 @@ def Index.remove (idx : Index) (k x : String) : Except PyExc Index :=
     else .error .valueError
 
 /-- the unrepaired `_remove` (kept for the refutation theorem and for replaying D3): the bucket stays -/
-def Index.removeUnrepaired (idx : Index) (k x : String) : Except PyExc Index :=
+def NameIndex.removeUnrepaired (idx : NameIndex) (k x : String) : Except PyExc NameIndex :=
   match dget k idx with
   | none => .error .keyError
   | some names => if x ∈ names then .ok (dset k (names.erase x) idx) else .error .valueError
@@ -173,8 +173,8 @@ def Svc.mutate (s : Svc) : Mut → Svc
 /-- `ServiceRegistry` -/
 structure Registry where
   services : List Svc := []
-  types : Index := []
-  servers : Index := []
+  types : NameIndex := []
+  servers : NameIndex := []
   hasEntries : Bool := false
   deriving DecidableEq, Repr, Inhabited
 
@@ -236,7 +236,7 @@ def lookupAll (svcs : List Svc) : List String → Except PyExc (List Svc)
       | .ok r => .ok (s :: r)
 
 /-- `_async_get_by_index` -/
-def byIndex (reg : Registry) (idx : Index) (k : String) : Except PyExc (List Svc) :=
+def byIndex (reg : Registry) (idx : NameIndex) (k : String) : Except PyExc (List Svc) :=
   match dget k idx with
   | none => .ok []
   | some names => lookupAll lower reg.services names
